@@ -246,6 +246,11 @@ def run(vm, n_writers, max_chunks, steps, kinds):
                     return 'VIOLATION: the writer of a wrong transfer stayed open'
             elif winner is None and (fut.done() or writer.closed()):
                 return 'VIOLATION: an incomplete transfer was ended although nothing was wrong yet'
+        if winner is None:
+            # nobody has delivered the blob yet: a peer's failure must not end the transfers of the others
+            for other in writers:
+                if other is not cur and other[3] < n and (other[0].finished.done() or other[0].closed()):
+                    return 'VIOLATION: a pending transfer was shut down by what another peer sent'
     return 'ok-verified' if winner is not None else 'ok-unverified'
 
 
